@@ -56,6 +56,9 @@ fn cast_number_operands() -> Vec<V> {
     vec![
         n(65.0), n(233.0), n(128512.0), n(0.0), n(-0.0), n(-1.0), n(0.5), n(55296.0), n(57343.0), n(57344.0), n(1114111.0),
         n(1114112.0), n(1e30), n(f64::NAN), n(f64::INFINITY), n(4294967296.0), n(4294967361.0), n(97.0), n(10.0), n(32.0),
+        // the doubles next to an integer are not integers
+        n(f64::from_bits(65.0f64.to_bits() + 1)), n(f64::from_bits(65.0f64.to_bits() - 1)), n(0.30000000000000004 * 10.0),
+        n(f64::from_bits(1114111.0f64.to_bits() + 1)), n(f64::MIN_POSITIVE), n(-f64::MIN_POSITIVE), n(0.9999999999999999),
     ]
 }
 fn round_operands() -> Vec<V> {
@@ -117,7 +120,7 @@ pub fn case(rng: &mut Rng, ctx: &mut Ctx) -> Program {
             // string -> number, every radix
             let param = match rng.below(12) {
                 0 | 1 | 2 => None,
-                3 => Some(n(*rng.pick(&[1e30, 2.5, f64::NAN, f64::INFINITY, -16.0, 4294967312.0, 16.000001]))),
+                3 => Some(n(*rng.pick(&[1e30, 2.5, f64::NAN, f64::INFINITY, -16.0, 4294967312.0, 16.000001, 16.000000000000004, 15.999999999999998, 36.00000000000001, 1.9999999999999998]))),
                 4 => Some(rng.pick(&[s("16"), V::Null, V::Bool(true), arr(vec![]), V::Mys]).clone()),
                 _ => {
                     let r = rng.range(0, 41) as f64 - 1.0;
@@ -187,6 +190,7 @@ pub fn case(rng: &mut Rng, ctx: &mut Ctx) -> Program {
             dump(&pvar(&x), result_may_be_array as usize, &mut body);
         }
         Form::IntoVariable | Form::IntoSubscript | Form::FromSubscriptInto | Form::FromLiteralInto => {
+            let mut popped_subscript: Option<Name> = None;
             let operand_prim = match form {
                 Form::FromLiteralInto if scalar_expr(&operand).map_or(false, |e| matches!(e, Expr::Prim(Prim::Lit(_)))) => {
                     match scalar_expr(&operand) {
@@ -202,12 +206,32 @@ pub fn case(rng: &mut Rng, ctx: &mut Ctx) -> Program {
                     build_stmts(&operand, &x, "tmpx", &mut b);
                     pre.extend(b);
                     pre.push(Stmt::Assign { dest: Lhs::Sub(Box::new(pvar(&container)), Box::new(Prim::Lit(Lit::Num(1.0)))), op: None, value: vec![var(&x)] });
-                    Prim::Sub(Box::new(pvar(&container)), Box::new(Prim::Lit(Lit::Num(1.0))))
+                    if rng.chance(1, 4) {
+                        // the subscript has an effect of its own (`Container at roll Queue`, Queue = [1, 0]): it is
+                        // evaluated exactly once, which the queue printed afterwards shows
+                        let q = simple("Queue");
+                        pre.push(put(Expr::Prim(Prim::Lit(Lit::Mysterious)), &q));
+                        pre.push(Stmt::Push { array: pvar(&q), value: Some(PushRhs::List(vec![num(1.0), num(0.0)])) });
+                        popped_subscript = Some(q.clone());
+                        ctx.count("cases.subscript_is_a_roll");
+                        Prim::Sub(Box::new(pvar(&container)), Box::new(Prim::Pop(Box::new(pvar(&q)))))
+                    } else {
+                        Prim::Sub(Box::new(pvar(&container)), Box::new(Prim::Lit(Lit::Num(1.0))))
+                    }
                 }
                 _ => {
                     build_stmts(&operand, &x, "tmpx", &mut pre);
                     pvar(&x)
                 }
+            };
+            // what is dumped afterwards never has an effect of its own
+            let stmt_operand = operand_prim.clone();
+            let operand_prim = if let Some(q) = &popped_subscript {
+                body.push(say(strlit("queue follows")));
+                let _ = q;
+                Prim::Sub(Box::new(pvar(&container)), Box::new(Prim::Lit(Lit::Num(1.0))))
+            } else {
+                operand_prim
             };
             match op {
                 Some(op) => {
@@ -216,7 +240,10 @@ pub fn case(rng: &mut Rng, ctx: &mut Ctx) -> Program {
                     } else {
                         Lhs::Ident(Ident::Name(d.clone()))
                     };
-                    body.push(Stmt::Mutation { op, operand: operand_prim.clone(), dest: Some(dest), param: param_expr });
+                    body.push(Stmt::Mutation { op, operand: stmt_operand.clone(), dest: Some(dest), param: param_expr });
+                    if let Some(q) = &popped_subscript {
+                        body.push(say(var(q)));
+                    }
                     // the operand keeps its value
                     if matches!(operand_prim, Prim::Ident(_) | Prim::Sub(..)) {
                         let deep = indexable(&operand) && !matches!(operand, V::Str(_));
@@ -235,8 +262,11 @@ pub fn case(rng: &mut Rng, ctx: &mut Ctx) -> Program {
                     // rounding of an element in place
                     body.push(Stmt::Rounding {
                         dir: *rng.pick(&[RoundDir::Up, RoundDir::Down, RoundDir::Nearest]),
-                        operand: Expr::Prim(operand_prim.clone()),
+                        operand: Expr::Prim(stmt_operand.clone()),
                     });
+                    if let Some(q) = &popped_subscript {
+                        body.push(say(var(q)));
+                    }
                     body.push(say(Expr::Prim(operand_prim)));
                     body.push(say(Expr::Prim(Prim::Sub(Box::new(pvar(&container)), Box::new(Prim::Lit(Lit::Num(0.0)))))));
                 }
